@@ -296,6 +296,26 @@ def sweep(tier: str) -> Sweep:
             p[j] = Serial.formatter(n2)[toks[j]]["value"]()
             if p != texts:
                 judge(sw, "serial", Serial, toks, p, serial_agree(toks, p), {"perturbed"}, r, perms=1)
+        # the SAME text under two different directives of one field: the texts coincide, the meanings need not
+        x = r.choice(["1", "10", "11", "100", "101", "110", "111", "1000", "1001", "10000000", "1111111"])
+        # %c / %u group digits in threes: an ungrouped text only fits them up to three digits
+        d1, d2 = r.sample(["%n", "%b"] + (["%c", "%u"] if len(x) <= 3 else []) + (["%p"] if len(x) == 3 else []), 2)
+        toks2, texts2 = [d1, d2] + ([r.choice(["%n", "%b"])] if r.random() < 0.3 else []), None
+        texts2 = [x for _ in toks2]
+        judge(sw, "serial", Serial, toks2, texts2, serial_agree(toks2, texts2), {"same-text"}, r, perms=1)
+        t3 = corr_fmt.rand_dt(r).replace(microsecond=0)
+        tt3 = dt_tuple(t3)
+        base3 = ["%Y", "%m", "%d"]
+        d2 = r.choice(["%-j", "%j", "%-d", "%-m", "%-j", "%-j"])
+        src = r.choice(["%-d", "%-m"])
+        xt = spec.strftime_spec(src, tt3)          # an unpadded number, as the unpadded directives print it
+        if d2 == "%j":
+            xt = xt.rjust(3, "0")
+        toks3 = base3 + [d2]
+        texts3 = [spec.strftime_spec(d, tt3) for d in base3] + [xt]
+        want3 = dt_agree(toks3, texts3)
+        wv3 = _dt.datetime(*want3) if isinstance(want3, tuple) else want3
+        judge(sw, "datetime", Datetime, toks3, texts3, wv3, dt_kinds(toks3, texts3, want3) | {"same-text"}, r, perms=1)
         # Storage ----------------------------------------------------------------------------------
         toks, texts, bits = storage_case(r)
         judge(sw, "storage", Storage, toks, texts, decimal.Decimal(bits), set(), r, value_eq=lambda a, b: a == b)
@@ -333,6 +353,22 @@ def sweep(tier: str) -> Sweep:
                 judge(sw, "naming", Naming, toks, p, w if w is not None else None, {"perturbed"} | (set() if w is not None else {"naming-disagree"}), r, perms=1)
         except Exception:  # noqa: BLE001
             pass
+        # a name and the initials of a shorter / longer name: they must agree even in non-strict mode
+        ws3 = corr_fmt.rand_name(r)
+        if len(ws3) >= 2 and all(w.isalnum() for w in ws3):
+            ini = "".join(w[0] for w in ws3)
+            full = r.choice(["%s", "%k", "%n"])
+            text_full = {"%s": "_".join(ws3), "%k": "-".join(ws3), "%n": " ".join(ws3)}[full]
+            for bad in (ini[:-1], ini + ini[0], ini + "x", ini[1:]):
+                if not bad or bad == ini:
+                    continue
+                for ab, tx in (("%a", bad), ("%A", bad.upper())):
+                    for strict in (False, True):
+                        fmt, text = f"{full}/{ab}", f"{text_full}/{tx}"
+                        out = outcome(Naming, text, fmt, strict)
+                        sw.note(["c05-initials", text, fmt, strict], "naming-initials")
+                        sw.check(out[0] != "ok", "a name is accepted next to the initials of a different name", {"cls": "naming", "fmt": fmt, "text": text, "strict": strict, "clause": "initials", "kind": "naming-disagree"}, "rejected", str(out[1]))
+                        sw.check(out[0] != "foreign", "a foreign exception", {"cls": "naming", "fmt": fmt, "text": text, "strict": strict, "clause": "family", "kind": "plain"}, "FormatterError", str(out[1]))
     return sw
 
 
